@@ -61,7 +61,8 @@ def rules_c04(prop, repo):
         R.fail_closed("%s:add:anchor" % prop, "G::add not found")
         return [R.finish()]
     p1, p2 = gpoint("s1"), gpoint("s2")
-    dom, rs = wrun(F, b, [p1, p2])
+    b = weight.implementation(repo, b)
+    dom, rs = wrun(F, b, weight.by_sig(b, [p1, p2]))
     # identity operands
     R.instance()
     id1 = [(v, pc) for v, pc in rs if pc and pc[0][0] == "is_zero" and pc[0][1] == p1.fields[2].vid and pc[0][4]]
@@ -111,6 +112,11 @@ def rules_c04(prop, repo):
         R.check(ok, "%s:add:arm(z1==1:%s,z2==1:%s)" % (prop, arm[0], arm[1]), "delegating arm does not return a point", b.file_line(), b.rec["path"], sample={"arm": "z1==1:%s z2==1:%s" % arm, "delegates": "other + self"})
     out.append(R.finish())
 
+    add_b = F.bodies.get("<crate::groups::G<P> as core::ops::Add>::add")
+    adders = {"<crate::groups::G<P> as core::ops::Add>::add"} | ({weight.implementation(repo, add_b).rec["path"]} if add_b is not None else set())
+
+    def is_adder(fk):
+        return fk.d in adders or (fk.name == "add" and fk.get("trait") == "core::ops::Add")
     R2 = Rule("R-SUB-NEG", "A − B = A + (−B); negation flips y only and leaves an identity unchanged; operator wrappers forward to the inner operation", floor=4)
     sb = F.bodies.get("<crate::groups::G<P> as core::ops::Sub>::sub")
     R2.instance()
@@ -118,7 +124,7 @@ def rules_c04(prop, repo):
         R2.fail_closed("%s:sub:anchor" % prop, "G::sub not found")
     else:
         rv = repo.tb(sb).return_value()
-        ok = rv[0] == "call" and rv[1].name == "add" and strip(rv[2][0]) == ("param", 1) and strip(rv[2][1])[0] == "call" and strip(rv[2][1])[1].name == "neg" and strip(strip(rv[2][1])[2][0]) == ("param", 2)
+        ok = rv[0] == "call" and is_adder(rv[1]) and strip(rv[2][0]) == ("param", 1) and strip(rv[2][1])[0] == "call" and strip(rv[2][1])[1].name == "neg" and strip(strip(rv[2][1])[2][0]) == ("param", 2)
         R2.check(ok, "%s:sub" % prop, "G::sub is not self + (−other): %s" % show(rv, maxdepth=3)[:160], sb.file_line(), sb.rec["path"], sample={"sub": show(rv, maxdepth=3)[:120]})
     nb = F.bodies.get("<crate::groups::G<P> as core::ops::Neg>::neg")
     R2.instance()
@@ -155,7 +161,7 @@ def rules_c04(prop, repo):
                 R2.instance()
                 tbb = repo.tb(fb)
                 v = tbb.final_value(("deref", 1)) if imp["trait"].endswith("Assign") else tbb.return_value()
-                ok = v[0] == "call" and v[1].name == "add" and len(v[2]) == 2
+                ok = v[0] == "call" and is_adder(v[1]) and len(v[2]) == 2
                 if ok:
                     a0, a1 = strip(v[2][0]), strip(v[2][1])
                     ok = a0 in (("init", ("deref", 1)), ("param", 1)) and a1 in (("param", 2), ("init", ("deref", 2)))
@@ -249,7 +255,7 @@ def rules_c15(prop, repo):
         dom, rs = wrun(F, b, [p], inverse_total=False)
         bad = []
         rows = []
-        for v, pc in rs:
+        for v, pc in [x for v0, pc0 in rs for x in weight.expand_option(v0, pc0)]:
             zz = [c[4] for c in pc if c[0] == "is_zero" and c[3] == "z"]
             z1 = [c[2] for c in pc if c[0] == "z==1"]
             isnone = isinstance(v, Adt) and v.variant == "None"
@@ -463,7 +469,7 @@ def rules_c09(prop, repo):
                 if rv["k"] == "aggregate" and rv.get("agg") == "adt":
                     if rv["adt"] == "crate::groups::AffineG":
                         R2.instance()
-                        ok = fb.rec["path"] in allowed
+                        ok = fb.rec["path"].split("::{closure")[0] in allowed
                         if ok and fb.rec["path"].endswith("::new"):
                             # dominated by the true edge of the curve test
                             ok = any(fb.dominates(s, bi) for s in curve_true_blocks(repo, fb))
